@@ -11,6 +11,7 @@ import (
 	"encoding/json"
 	"fmt"
 	"io"
+	"net/http/httptest"
 	"os"
 	"path/filepath"
 	"runtime"
@@ -20,6 +21,7 @@ import (
 	"syscall"
 	"time"
 
+	"github.com/bbva/qed/api/mgmthttp"
 	"github.com/bbva/qed/consensus"
 	"github.com/bbva/qed/log"
 	"github.com/bbva/qed/protocol"
@@ -58,6 +60,7 @@ type nodeH struct {
 	mu       sync.Mutex
 	pending  *pendingAdd
 	pendingQ chan []xp.Answer
+	mgmt     *httptest.Server
 	handed   []xp.Snap // snapshots received on the node's snapshots channel (what goes to the gossip sender)
 }
 
@@ -711,6 +714,12 @@ func (w *world) nodeOp(r *xp.Req, resp *xp.Resp) {
 		resp.Emitted = int(atomic.LoadInt64(&h.emitted))
 	case "node-dump":
 		dump(h.fs.RocksDBStore, resp, r.Tables)
+	case "node-mgmt":
+		// the management API (api/mgmthttp) in front of this node, as server.Server mounts it
+		if h.mgmt == nil {
+			h.mgmt = httptest.NewServer(mgmthttp.NewMgmtHttp(n))
+		}
+		resp.URL = h.mgmt.URL
 	case "node-backup":
 		resp.Err = errStr(n.CreateBackup())
 	case "node-backups":
